@@ -277,6 +277,7 @@ func (e *CEnv) object(obj types.Object) *CV {
 
 func (e *CEnv) deref(v *CV) *CV {
 	ft := e.ft
+	ft.noteRefSource(v.T)
 	if v.Type == nil {
 		e.fail("dereference of non-pointer")
 	}
@@ -356,6 +357,7 @@ func (e *CEnv) index(n *EIndex) *CV {
 		switch u := types.Unalias(x.Type).Underlying().(type) {
 		case *types.Slice:
 			e.want(i, "Int")
+			ft.noteRefSource(x.T)
 			if isByte(u.Elem()) {
 				return &CV{T: A("bat", Sel(e.region("H.Bytes"), x.T), i.T), Sort: "Int", Type: u.Elem()}
 			}
@@ -699,4 +701,43 @@ func (e *CEnv) debugVar(name string) *CV {
 		return nil
 	}
 	return &CV{T: b.refT(v), Type: best.Type(), Sort: e.ft.sortOf(best.Type()), Addr: v.Addr}
+}
+
+// noteRefSource records where a reference that a contract dereferences was
+// loaded from (a field of a heap cell, or an element of a slice of
+// references), so that allocations can be declared distinct from every
+// reference stored there (see freshRef).
+func (ft *FT) noteRefSource(t *T) {
+	if t == nil || t.Args == nil {
+		return
+	}
+	regionOf := func(r *T) string {
+		if r.Args != nil {
+			return ""
+		}
+		if i := strings.LastIndex(r.Op, "@"); i > 0 {
+			return r.Op[:i]
+		}
+		return ""
+	}
+	// (sel ... (select REGION x))
+	cur := t
+	var sels []string
+	for cur.Args != nil && len(cur.Args) == 1 && cur.Op != "select" {
+		sels = append([]string{cur.Op}, sels...)
+		cur = cur.Args[0]
+	}
+	if cur.Op == "select" && len(cur.Args) == 2 {
+		inner := cur.Args[0]
+		if reg := regionOf(inner); reg != "" && len(sels) > 0 {
+			ft.refSources[reg+"|"+strings.Join(sels, "|")] = true
+			return
+		}
+		// (select (select HS.Ref x) i)
+		if inner.Op == "select" && len(inner.Args) == 2 && len(sels) == 0 {
+			if reg := regionOf(inner.Args[0]); reg != "" {
+				ft.refSources[reg+"|[]"] = true
+			}
+		}
+	}
 }
